@@ -21,7 +21,7 @@ from mcx.build import Scratch, generic_points
 from mcx.core import Check
 from mcx.ref import gro as ref
 
-NAMES = ('A', 'AB', 'ABCDE', '1', 'H12', 'O-')
+NAMES = ('A', 'AB', 'ABCDE', '1', 'H12', 'O-', 'O.w', 'T.3P.')   # any non-blank characters, dots included
 NUMBERS = (0, 1, 9, 99998, 99999, 100000, 100001, 199998, 1234567, 10 ** 7)
 FORMATS = (None, 1, 2, 3, 4, 5, 6)          # None = no position format set (default 8.3)
 TITLES = {
@@ -29,6 +29,7 @@ TITLES = {
     'spaces': 'in ner  words and trailing blanks  ',
     'lead': '  leading blanks',
     'long': ('0123456789' * 10),
+    'unicode': 'box at 25 \u00b0C, \u03b1-helix \u2013 caf\u00e9',     # non-ASCII: characters != bytes
 }
 BOXES = {
     'vec': [3.0, 4.5, 5.25],
@@ -41,6 +42,10 @@ P4_NUMBERS = (1, 99999, 1234567)
 P4_COORDS = ('mid', 'ext', 'tie')
 P4_TITLES = ('t', 'spaces')
 P4_BOXES = ('vec', 'tric', 'round')
+import locale
+ENC = locale.getpreferredencoding(False)     # the library opens files with the default text encoding
+if 'utf' not in ENC.lower():                  # the title must be representable in the file encoding
+    TITLES.pop('unicode')
 NX = 15                                      # size of the coordinate alphabet
 
 
@@ -258,7 +263,7 @@ def judge(spec, obs):
             out.append(('roundtrip/title', (spec['title'], obs['comment'])))
     # -- independent parse of the written bytes ------------------------------------------------
     try:
-        text = obs['raw'].decode('ascii')
+        text = obs['raw'].decode(ENC)
         r = ref.ref_read_gro_full(text)
     except Exception as e:
         out.append(('ref/written-file-unparseable', f'{type(e).__name__}: {e}'[:300]))
@@ -416,7 +421,7 @@ class C13(Check):
             # informational only: byte-exact agreement with the reference formatter (alignment,
             # count column) is more than the statement asks and is never a violation
             try:
-                same = obs['raw'].decode('ascii') == reference_text(spec)
+                same = obs['raw'].decode(ENC) == reference_text(spec)
             except Exception:
                 same = False
             R.add('text_equals_reference_formatter' if same else 'text_differs_from_reference_formatter')
